@@ -722,52 +722,93 @@ def multiplierArrayThreshold (n : Nat) : Nat :=
   else if 71 ≤ n ∧ n ≤ 79 then 19 else if n = 80 ∨ n = 81 then 12
   else if 139 ≤ n ∧ n ≤ 159 then 19 else if 160 ≤ n ∧ n ≤ 162 then 12 else 21
 
+/-! `NewWallaceMultiplier`, as structural recursion: partial products into
+columns, rounds of 3:2 / 2:2 compression column by column, final Kogge-Stone
+addition of the two remaining rows. -/
+
+/-- Partial products of one multiplicand bit: `AND(a_i, b_j)` for all `j`. -/
+def wlRow (ai : Nat) : List Nat → BM (List Nat)
+  | [] => pure []
+  | bj :: bs => do
+    let w ← gate .and ai bj
+    let r ← wlRow ai bs
+    pure (w :: r)
+
+/-- Append the entries of `ws` to the columns `i, i+1, …`. -/
+def addAt {α : Type} : Nat → List (List α) → List α → List (List α)
+  | 0, c :: cs, w :: ws => (c ++ [w]) :: addAt 0 cs ws
+  | 0, cs, [] => cs
+  | 0, [], _ :: _ => []
+  | i + 1, c :: cs, ws => c :: addAt i cs ws
+  | _ + 1, [], _ => []
+
+/-- "1. Partial Product Generation": row `i` goes to the columns `i + j`. -/
+def wlPP (b : List Nat) : List Nat → Nat → List (List Nat) → BM (List (List Nat))
+  | [], _, cols => pure cols
+  | ai :: as, i, cols => do
+    let row ← wlRow ai b
+    wlPP b as (i + 1) (addAt i cols row)
+
+/-- One column of a reduction round: full adders on triples, a half adder on a
+remaining pair, a remaining single wire is passed through.  Returns the wires
+that stay in the column and the carries for the next column. -/
+def wlReduceCol : List Nat → BM (List Nat × List Nat)
+  | a :: b :: c :: rest => do
+    let r ← fullAdder' a b c
+    let t ← wlReduceCol rest
+    pure (r.1 :: t.1, r.2 :: t.2)
+  | [a, b] => do
+    let r ← halfAdder a b
+    pure ([r.1], [r.2])
+  | [a] => pure ([a], [])
+  | [] => pure ([], [])
+
+/-- One reduction round over all columns; `cin` are the carries of the previous
+column (they precede the column's own outputs).  The carries of the last column
+are dropped. -/
+def wlRound : List (List Nat) → List Nat → BM (List (List Nat))
+  | [], _ => pure []
+  | col :: rest, cin => do
+    let r ← wlReduceCol col
+    let t ← wlRound rest r.2
+    pure ((cin ++ r.1) :: t)
+
+/-- Maximal column height. -/
+def maxH (cols : List (List Nat)) : Nat := cols.foldl (fun m c => max m c.length) 0
+
+/-- "2. Wallace Tree Reduction": rounds until every column has at most two
+wires (`fuel` bounds the number of rounds; the height shrinks every round). -/
+def wlLoop : Nat → List (List Nat) → BM (List (List Nat))
+  | 0, cols => pure cols
+  | fuel + 1, cols =>
+    if maxH cols ≤ 2 then pure cols else do
+      let cols' ← wlRound cols []
+      wlLoop fuel cols'
+
+/-- "3. Prepare rows for final addition": first and second wire of every
+column, the zero wire where missing. -/
+def wlRows : List (List Nat) → BM (List Nat × List Nat)
+  | [] => pure ([], [])
+  | col :: rest => do
+    let r1 ← (match col with
+      | w :: _ => pure w
+      | [] => zeroWire)
+    let r2 ← (match col with
+      | _ :: w :: _ => pure w
+      | _ => zeroWire)
+    let t ← wlRows rest
+    pure (r1 :: t.1, r2 :: t.2)
+
 /-- `NewWallaceMultiplier`. -/
 def wallace (a b : List Nat) (nr : Nat) : BM (List Nat) := do
   let a ← pad a nr
   let b ← pad b nr
-  let a := (a.take nr).toArray
-  let b := (b.take nr).toArray
-  let n := if a.size > nr then nr else nr
-  let mut cols : Array (Array Nat) := Array.replicate (2 * n) #[]
-  for i in [0:n] do
-    for j in [0:n] do
-      let w ← gate .and a[i]! b[j]!
-      cols := cols.modify (i + j) (·.push w)
-  for _round in [0:2 * n + 8] do
-    let maxH := cols.foldl (fun m c => max m c.size) 0
-    if maxH ≤ 2 then break
-    let mut next : Array (Array Nat) := Array.replicate (2 * n) #[]
-    for i in [0:cols.size] do
-      let col := cols[i]!
-      let mut j := 0
-      for _k in [0:col.size] do
-        if j + 2 < col.size then
-          let r ← fullAdder' col[j]! col[j + 1]! col[j + 2]!
-          next := next.modify i (·.push r.1)
-          if i + 1 < next.size then next := next.modify (i + 1) (·.push r.2)
-          j := j + 3
-      if j + 1 < col.size then
-        let r ← halfAdder col[j]! col[j + 1]!
-        next := next.modify i (·.push r.1)
-        if i + 1 < next.size then next := next.modify (i + 1) (·.push r.2)
-        j := j + 2
-      if j < col.size then
-        next := next.modify i (·.push col[j]!)
-    cols := next
-  let mut row1 : Array Nat := #[]
-  let mut row2 : Array Nat := #[]
-  for i in [0:n] do
-    let col := cols[i]!
-    if col.size > 0 then row1 := row1.push col[0]!
-    else
-      let z ← zeroWire
-      row1 := row1.push z
-    if col.size > 1 then row2 := row2.push col[1]!
-    else
-      let z ← zeroWire
-      row2 := row2.push z
-  ksAdder row1.toList row2.toList nr
+  let a := a.take nr
+  let b := b.take nr
+  let cols ← wlPP b a 0 (List.replicate (2 * nr) [])
+  let cols ← wlLoop (2 * nr + 8) cols
+  let rows ← wlRows (cols.take nr)
+  ksAdder rows.1 rows.2 nr
 
 /-- `NewMultiplier(c, arrayTreshold = 0, x, y, z)`. -/
 def newMultiplier (gmw : Bool) (x y : List Nat) (nz : Nat) : BM (Option (List Nat)) :=
